@@ -485,3 +485,144 @@ def _(c):
         return And(applies, Not(n.state.excluding), exit_structure(fs, RP.items_of(cmds)), at_tracked(Q, n.state),
                    eq(Q.e, val(n.state.position.E_AXIS.current)), z_order_ok(P, Q, log, tracked_xyz(n.state)[2]))
     c.ensures("C15.cleanup-exactly-when-episode-open", post, props=("C15", "C06", "C11", "C03"))
+
+
+# ---------------------------------------------------------------------------------------------
+# settings plumbing (C06 scripts / deferral modes, C11 clear-after-print, C12 may-shrink, C14 @-command actions)
+@contract("__init__.ExcludeRegionPlugin._splitGcodeScript")
+def _(c):
+    def summary(f):
+        from pyvc.values import Opaque
+        f.interp.ctx.assumed.add("A2:_splitGcodeScript(text) is an opaque function of the configured text here; its behaviour "
+                                 "(comments and blank lines removed, commands normalised) is checked bounded (bounded/settings)")
+        r = Opaque("script split from the settings")
+        r.split_of = f.a.gcodeString
+        return r
+    c.summary(summary)
+    c.log_calls = True
+    c.use_modular()
+
+
+@contract("__init__.ExcludeRegionPlugin.loggingMode.setter")
+def _(c):
+    def summary(f):
+        f.interp.ctx.assumed.add("A3:the loggingMode setter only reconfigures log handlers (not modelled) and stores the mode")
+        f.interp.ctx.log_write(f.self, "_loggingMode")
+        f.self.fields["_loggingMode"] = f.a.loggingMode
+        return None
+    c.summary(summary)
+    c.use_modular()
+
+
+GCODE_CFG = (("G4", "M204"), ("G4", "G4"), ("M117", "G4"))
+ATCMD_CFG = (("ExcludeRegion", "ExcludeRegion"), ("ExcludeRegion", "Other"), ("Other", "ExcludeRegion"))
+MODES = ("exclude", "first", "last", "merge")
+ACTIONS = ("enable_exclusion", "disable_exclusion")
+
+
+def one_of(b, name, options):
+    """A symbolic string constrained to the given constants (natively: one of them, chosen from the model)."""
+    v = b.string(name)
+    if b.native:
+        return v if v in options else options[len(v) % len(options)]
+    b.assume(Or(*[str_eq(v, o) for o in options]))
+    return v
+
+
+@contract("__init__.ExcludeRegionPlugin._handleSettingsUpdated")
+def _(c):
+    """Every configuration field is taken from ITS OWN settings key; the deferral table maps each configured code to its
+    own mode (last entry wins for a repeated code); the @-command table keeps every configured action, grouped by
+    command in configuration order.  Bounded in the number of configured entries (0..2 each) only."""
+    def pre(b):
+        p = mk_plugin(b, **state_fields(b))
+        ng = b.choose(3, "configured extended codes")
+        gk = GCODE_CFG[b.choose(len(GCODE_CFG), "codes")] if ng == 2 else GCODE_CFG[0]
+        gcodes = [b.dict({"gcode": gk[i], "mode": one_of(b, "cfg.mode%d" % i, MODES), "description": b.string("gdesc%d" % i)})
+                  for i in range(ng)]
+        na = b.choose(3, "configured @-command actions")
+        ak = ATCMD_CFG[b.choose(len(ATCMD_CFG), "commands")] if na == 2 else ATCMD_CFG[0]
+        acts = [b.dict({"command": ak[i], "parameterPattern": [None, "^\\s*(enable|on)"][b.choose(2, "pattern %d" % i)],
+                        "action": one_of(b, "cfg.action%d" % i, ACTIONS), "description": b.string("adesc%d" % i)})
+                for i in range(na)]
+        vals = {"clearRegionsAfterPrintFinishes": b.bool("cfg.clearRegionsAfterPrintFinishes"),
+                "mayShrinkRegionsWhilePrinting": b.bool("cfg.mayShrinkRegionsWhilePrinting"),
+                "enteringExcludedRegionGcode": b.optstr("cfg.enteringExcludedRegionGcode"),
+                "exitingExcludedRegionGcode": b.optstr("cfg.exitingExcludedRegionGcode"),
+                "extendedExcludeGcodes": b.list(gcodes), "atCommandActions": b.list(acts),
+                "loggingMode": "octoprint" if b.native else one_of(b, "cfg.loggingMode", ("octoprint", "dedicated", "both"))}
+        p._settings = b.settings(vals)
+        if b.native:
+            p.gcodeHandlers.gcodeParser = b.new("GcodeParser")      # the real splitter runs natively
+        g = {"cfg": vals, "gcodes": gcodes, "acts": acts,
+             "global": b.settings({"feature.g90InfluencesExtruder": b.bool("cfg.g90InfluencesExtruder")}, is_global=True)}
+        g["g90"] = g["global"].get(["feature", "g90InfluencesExtruder"]) if b.native else g["global"].values["feature.g90InfluencesExtruder"]
+        b.spy(g, p, "_splitGcodeScript")
+        return {"self": p, "args": {}, "ghost": g}
+    c.pre(pre)
+
+    def scalars(f):
+        cfg, p = f.g["cfg"], f.self
+        return And(Iff(p.clearRegionsAfterPrintFinishes, cfg["clearRegionsAfterPrintFinishes"]),
+                   Iff(p.mayShrinkRegionsWhilePrinting, cfg["mayShrinkRegionsWhilePrinting"]),
+                   Iff(p.state.g90InfluencesExtruder, f.g["g90"]),
+                   str_eq(p._loggingMode, cfg["loggingMode"]))
+    c.ensures("C11.each-flag-from-its-own-settings-key", scalars, props=("C11", "C12", "C02", "C04"))
+
+    def scripts(f):
+        from contracts.handlers import calls
+        cs = calls(f, "_splitGcodeScript")
+        if len(cs) != 2:
+            return False
+        cfg, st = f.g["cfg"], f.self.state
+
+        def same_text(a, b_):
+            if getattr(f, "native", False):
+                return a == b_
+            if a is b_:
+                return True
+            if hasattr(a, "isnone") and hasattr(b_, "isnone"):      # the same optional text (syntactically the same terms)
+                return a.isnone.eq(b_.isnone) and a.val.eq(b_.val)
+            return False
+        ok_in = same_text(cs[0][1]["gcodeString"], cfg["enteringExcludedRegionGcode"]) and \
+            same_text(cs[1][1]["gcodeString"], cfg["exitingExcludedRegionGcode"])
+        if getattr(f, "native", False):
+            return ok_in and st.enteringExcludedRegionGcode == cs[0][2] and st.exitingExcludedRegionGcode == cs[1][2]
+        return ok_in and st.enteringExcludedRegionGcode is cs[0][2] and st.exitingExcludedRegionGcode is cs[1][2]
+    c.ensures("C06.scripts-split-from-their-own-settings-keys", scripts, props=("C06", "C15"))
+
+    def tables(f):
+        st = f.self.state
+        gtab, atab = st.extendedExcludeGcodes, st.atCommandActions
+        gd = gtab if isinstance(gtab, dict) else gtab.d
+        ad = atab if isinstance(atab, dict) else atab.d
+
+        def fld(d, k):
+            return d[k] if isinstance(d, dict) else d.d[k]
+        gcodes, acts = f.g["gcodes"], f.g["acts"]
+        want_g = {}
+        for e in gcodes:
+            want_g[fld(e, "gcode")] = e
+        if set(gd.keys()) != set(want_g.keys()):
+            return False
+        conds = []
+        for k, e in want_g.items():
+            got = gd[k]
+            conds += [str_eq(got.gcode, k), str_eq(got.mode, fld(e, "mode")), str_eq(got.description, fld(e, "description"))]
+        want_a = {}
+        for e in acts:
+            want_a.setdefault(fld(e, "command"), []).append(e)
+        if set(ad.keys()) != set(want_a.keys()):
+            return False
+        for k, es in want_a.items():
+            got = ad[k]
+            got = list(got.items) if hasattr(got, "items") and not isinstance(got, dict) else list(got)
+            if len(got) != len(es):
+                return False
+            for ga, e in zip(got, es):
+                pat = fld(e, "parameterPattern")
+                conds += [str_eq(ga.command, k), str_eq(ga.action, fld(e, "action")), str_eq(ga.description, fld(e, "description")),
+                          (ga.parameterPattern is None) if pat is None else
+                          (ga.parameterPattern is not None and ga.parameterPattern.pattern == pat)]
+        return And(*conds) if conds else True
+    c.ensures("C06.deferral-and-action-tables-mirror-the-configuration", tables, props=("C06", "C14"))
